@@ -41,7 +41,7 @@ fn scene_from(j: &J) -> Scene {
 fn short(s: &Scene) -> String { format!("{}x{}vp{:?}|{}", s.bw, s.bh, s.vp, s.tris.iter().map(|t| format!("{:?}", t.v)).collect::<Vec<_>>().join(";")) }
 
 const DOORS: [Door; 3] = [Door::Render, Door::Batch, Door::Camera];
-const KINDS: [TargetKind; 3] = [TargetKind::Owned, TargetKind::SubView, TargetKind::ColorOnly];
+const KINDS: [TargetKind; 4] = [TargetKind::Owned, TargetKind::SubView, TargetKind::ColorOnly, TargetKind::ColorOnlySub];
 
 // ------------------------------------------------------------------ C01
 
@@ -52,14 +52,15 @@ fn check_image(scene: &Scene, door: Door, kind: TargetKind, r: &mut Report) { ch
 /// 1 = distinct negative values, 2 = -0.0, 3 = f32::MIN, 4 = -infinity - every one of them farther than any fragment)
 fn check_image_ctx(scene: &Scene, door: Door, kind: TargetKind, mode: u8, r: &mut Report) {
     r.eval();
-    let (painter, dinit) = (mode & 3, mode >> 2);
+    // bits 5..: the varying type that carries the attribute between the shader stages (0 = f32)
+    let (painter, dinit, vary) = (mode & 3, (mode >> 2) & 7, VARY_KINDS[(mode >> 5) as usize % 6]);
     let dsent = |idx: usize| -> f32 { match dinit { 0 => depth_sentinel(idx), 1 => -1.0 - idx as f32 * 0.125, 2 => -0.0, 3 => f32::MIN, _ => f32::NEG_INFINITY } };
     let n_px = (scene.bw * scene.bh) as usize;
     let (prior_c, prior_d): (Vec<u32>, Vec<f32>) = ((0..n_px).map(color_sentinel).collect(), (0..n_px).map(dsent).collect());
     let case = || obj! {"kind" => "image", "scene" => scene_json(scene), "door" => format!("{door:?}"), "target" => format!("{kind:?}"), "painter" => mode as u64};
-    let tag = format!("{door:?}|{kind:?}|p{painter}d{dinit}|{}", short(scene));
+    let tag = format!("{door:?}|{kind:?}|p{painter}d{dinit}{}|{}", if vary == VaryKind::F32 { String::new() } else { format!("|{vary:?}") }, short(scene));
     let ctx = match painter { 0 => ctx_plain(), 1 => Context { depth_sort: Some(DepthSort::BackToFront), ..ctx_plain() }, _ => Context { depth_sort: Some(DepthSort::BackToFront), depth_test: None, ..ctx_plain() } };
-    let out = match render_scene(scene, None, door, kind, &ctx, Discard::Never, if dinit == 0 { None } else { Some((&prior_c, &prior_d)) }) {
+    let out = match render_scene_vary(vary, scene, None, door, kind, &ctx, Discard::Never, if dinit == 0 { None } else { Some((&prior_c, &prior_d)) }) {
         Ok(o) => o,
         Err(p) => { r.violation(format!("render-panic|{tag}"), format!("rendering panicked: {p}"), case()); return; }
     };
@@ -125,12 +126,14 @@ fn run_image(cfg: &Cfg) -> ! {
             if i % 8 == 0 { for d in DOORS { for k in KINDS { check_image(&scene, d, k, r); } } }
             if i % 512 == 7 && vi == 0 {
                 // scale sentinels: 300x3 and 3x300 targets, viewport offset inside
-                for (bw, bh, vp) in [(300u32, 3u32, (2u32, 0u32, 300u32, 3u32)), (3, 300, (0, 40, 3, 300))] { check_image(&Scene { tris: scene.tris.clone(), bw, bh, vp }, DOORS[(i / 512 % 3) as usize], KINDS[(i / 1536 % 3) as usize], r); }
+                for (bw, bh, vp) in [(300u32, 3u32, (2u32, 0u32, 300u32, 3u32)), (3, 300, (0, 40, 3, 300))] { check_image(&Scene { tris: scene.tris.clone(), bw, bh, vp }, DOORS[(i / 512 % 3) as usize], KINDS[(i / 1536 % 4) as usize], r); }
             }
-            else { check_image(&scene, DOORS[((i / 8 + vi) % 3) as usize], KINDS[((i / 24 + vi) % 3) as usize], r); }
+            else { check_image(&scene, DOORS[((i / 8 + vi) % 3) as usize], KINDS[((i / 24 + vi) % 4) as usize], r); }
+            // the attribute carried by other varying types (Point2, Vec3, Color4f, a tuple, Angle): one scene in six
+            if i % 6 == 4 && vi == 0 { check_image_ctx(&scene, DOORS[(i / 6 % 3) as usize], KINDS[(i / 18 % 4) as usize], (1 + (i / 6 % 5) as u8) << 5, r); r.h("other-varying-type"); }
             if i % 16 == 5 && vi == 0 {
                 // homogeneous scale: the same scene with all clip coordinates multiplied by 2^-20 (and by 2^7) is the same image
-                for sc in [9.5367431640625e-7f32, 128.0] { let tris = scene.tris.iter().map(|t| STri { v: t.v.map(|p| p.map(|c| c * sc)), a: t.a }).collect(); check_image(&Scene { tris, bw, bh, vp }, DOORS[(i / 16 % 3) as usize], KINDS[(i / 48 % 3) as usize], r); r.h("scaled-scene"); }
+                for sc in [9.5367431640625e-7f32, 128.0] { let tris = scene.tris.iter().map(|t| STri { v: t.v.map(|p| p.map(|c| c * sc)), a: t.a }).collect(); check_image(&Scene { tris, bw, bh, vp }, DOORS[(i / 16 % 3) as usize], KINDS[(i / 48 % 4) as usize], r); r.h("scaled-scene"); }
             }
         }
     }));
@@ -176,14 +179,14 @@ fn run_image(cfg: &Cfg) -> ! {
         let ix: Vec<usize> = if c == a { if a == b { return; } vec![a, b] } else if a == b || b == c { return; } else { vec![a, b, c] };
         if !disjoint(&ix) { r.h("painter:ranges-overlap"); return; }
         let scene = Scene { tris: ix.iter().map(|&k| opool[k].clone()).collect(), bw: 8, bh: 8, vp: (0, 0, 8, 8) };
-        check_image_ctx(&scene, DOORS[(i % 3) as usize], TargetKind::ColorOnly, 1, r);
+        check_image_ctx(&scene, DOORS[(i % 3) as usize], [TargetKind::ColorOnly, TargetKind::ColorOnlySub][(i / 3 % 2) as usize], 1, r);
         check_image_ctx(&scene, DOORS[((i + 1) % 3) as usize], [TargetKind::Owned, TargetKind::SubView][(i % 2) as usize], 2, r);
         r.h("painter:scene");
     }));
     rep.sample(0, || obj! {"scene" => "single triangle [[-1.5,1.2,0.4,2],[1.2,-0.35,2,-1],[-0.35,-1.5,-1.5,0.5]] attrs (0,1,0.25), buffer 8x6, viewport x1..7 y2..5, door Batch, target SubView"});
     rep.sample(1, || obj! {"multi" => "ordered triples from a 24-triangle pool of visible triangles with distinct outcode signatures"});
     rep.finish(cfg, "exploration",
-        "scenes = every ordered vertex triple of a clip-space lattice (x,y,z,w incl. negative w; triangles whose plane passes through the clip-space origin filtered and counted) x attribute permutation x viewport/buffer family x front door {render, Batch, Camera} x target {Framebuf<Buf2>, Framebuf<MutSlice2> over strided sub-views of larger buffers, colour-only}; plus every ordered pair and triple from a 24-triangle pool; plus 1 in 16 scenes re-rendered with all clip coordinates scaled by 2^-20 and 2^7 (same image); plus one multi-triangle scene in five with the depth buffer initialised to negative values, -0.0, f32::MIN or -infinity; plus painter scenes (pairs/triples of the C06 pool with disjoint visible depth ranges, BackToFront sort, colour-only target or depth test off). Oracle: independent f64 per-pixel reference (projective barycentric solve, nearest by 1/w) with the statement's ambiguity mask (16 probes at 0.03 px, internal fan edges from the public clip API, 0.1% depth ties): inside => attribute within 0.5% and 1/w within 0.2%, outside => sentinel colour and depth intact. non-trivial = scene with >=1 judged inside pixel that is clipped or multi-triangle.",
+        "scenes = every ordered vertex triple of a clip-space lattice (x,y,z,w incl. negative w; triangles whose plane passes through the clip-space origin filtered and counted) x attribute permutation x viewport/buffer family x front door {render, Batch, Camera} x target {Framebuf<Buf2>, Framebuf<MutSlice2> over strided sub-views of larger buffers, colour-only Buf2, colour-only strided MutSlice2 sub-view}; plus every ordered pair and triple from a 24-triangle pool; plus 1 in 16 scenes re-rendered with all clip coordinates scaled by 2^-20 and 2^7 (same image); plus one scene in six with the attribute carried by a Point2, Vec3, Color4f, (Vec2,f32) or Angle varying instead of f32; plus one multi-triangle scene in five with the depth buffer initialised to negative values, -0.0, f32::MIN or -infinity; plus painter scenes (pairs/triples of the C06 pool with disjoint visible depth ranges, BackToFront sort, colour-only target or depth test off). Oracle: independent f64 per-pixel reference (projective barycentric solve, nearest by 1/w) with the statement's ambiguity mask (16 probes at 0.03 px, internal fan edges from the public clip API, 0.1% depth ties): inside => attribute within 0.5% and 1/w within 0.2%, outside => sentinel colour and depth intact. non-trivial = scene with >=1 judged inside pixel that is clipped or multi-triangle.",
         &["attribute range is 1 (values 0, 0.25, 1)", "the fragment shader smuggles the attribute's bit pattern through the colour word", "initial depth = per-pixel distinct values < 3e-7"]);
 }
 
@@ -415,12 +418,28 @@ fn explore_order(scene: &Scene, r: &mut Report, scene_id: u64, discard: Discard)
         }
     }
     let covered = |i: usize, p: usize| solo[i].0[p] != color_sentinel(p);
+    // reference reciprocal depth of each triangle at each pixel centre (f64 projective solve, independent of the renderer):
+    // which fragment is "nearest" - and whether two are tied - is decided by geometry, not by what the solo renders stored
+    let refz: Vec<Vec<Option<f64>>> = (0..px).map(|p| { let (c, _) = candidates(scene, (p as u32 % scene.bw) as f64 + 0.5, (p as u32 / scene.bw) as f64 + 0.5); (0..n).map(|i| c.iter().find(|x| x.0 == i).map(|x| x.2)).collect() }).collect();
     // expected buffers for a set of submitted triangles; None where an exact depth tie makes the winner undefined
     let expected = |mask: u32| -> Vec<Option<(u32, u32)>> {
         (0..px).map(|p| {
-            let mut best: Option<(f32, usize)> = None; let mut tie = false;
-            for i in 0..n { if mask >> i & 1 == 1 && covered(i, p) { let z = solo[i].1[p]; match best { None => best = Some((z, i)), Some((bz, _)) => { if z == bz { tie = true; } else if z > bz { best = Some((z, i)); tie = false; } } } } }
-            if tie { None } else { Some(match best { None => (color_sentinel(p), depth_sentinel(p).to_bits()), Some((z, i)) => (solo[i].0[p], z.to_bits()) }) }
+            let mut best: Option<(f64, usize)> = None; let mut tie = false;
+            for i in 0..n { if mask >> i & 1 == 1 && covered(i, p) {
+                // (pixels a triangle covers only by edge/clip rounding have no reference depth: fall back on the stored one)
+                let (z, sz) = (refz[p][i].unwrap_or(solo[i].1[p] as f64), solo[i].1[p]);
+                match best {
+                    None => best = Some((z, i)),
+                    Some((bz, bi)) => {
+                        // clear cases (> 1e-5 relative apart) are decided by geometry; close calls by the stored f32 depths,
+                        // which is what a correct depth test compares - exactly equal stored depths are a tie
+                        let clear = refz[p][i].is_some() && refz[p][bi].is_some() && (z - bz).abs() > 1e-5 * z.abs().max(bz.abs());
+                        let nearer = if clear { z > bz } else { sz > solo[bi].1[p] };
+                        if !clear && sz == solo[bi].1[p] { tie = true; } else if nearer { best = Some((z, i)); tie = false; }
+                    }
+                }
+            } }
+            if tie { None } else { Some(match best { None => (color_sentinel(p), depth_sentinel(p).to_bits()), Some((_, i)) => (solo[i].0[p], solo[i].1[p].to_bits()) }) }
         }).collect()
     };
     let overlap = (0..px).filter(|&p| (0..n).filter(|&i| covered(i, p)).count() >= 2).count();
@@ -552,7 +571,7 @@ fn run_order(cfg: &Cfg) -> ! {
     });
     rep.set("scenes", ns);
     rep.finish(cfg, "model_checking",
-        "explicit-state search per scene of n<=4 (thorough <=6) triangles on an 8x8 Framebuf: state = (set of submitted triangles, colour buffer, depth buffer); transition = one real render() call with ANY non-empty ordered subset of the not yet submitted triangles x depth_sort in {None, FrontToBack, BackToFront}; states deduplicated on the full tuple; invariant in every state: each pixel holds colour and depth of the nearest (largest 1/w) submitted triangle covering it, where coverage and depth per triangle come from solo renders (differential oracle) and pixels with exactly equal depths are exempt; plus: depth test off + BackToFront == depth-buffered image for scenes with disjoint depth ranges; scenes of <= 3 triangles are explored a second time with a checkerboard-discarding fragment shader. Scenes: all 2-, 3- and 4-subsets (thorough: also all 5-subsets and two 6-subsets) of a 21-triangle pool with overlapping, identically coloured, interpenetrating, partially clipped, culled-away, clipped-away (past a frustum corner), behind-the-viewer, coincident-footprint and two-ulp-apart members; depth ranges for the painter clause are those of the exact visible parts.",
+        "explicit-state search per scene of n<=4 (thorough <=6) triangles on an 8x8 Framebuf: state = (set of submitted triangles, colour buffer, depth buffer); transition = one real render() call with ANY non-empty ordered subset of the not yet submitted triangles x depth_sort in {None, FrontToBack, BackToFront}; states deduplicated on the full tuple; invariant in every state: each pixel holds colour and depth of the nearest (largest 1/w) submitted triangle covering it, where coverage, colour and stored depth per triangle come from solo renders (differential oracle), but WHICH triangle is nearest at a pixel - is decided by an independent f64 projective solve whenever the two differ by more than 1e-5 relative, and by the stored f32 depths (exact ties exempt) for closer calls; plus: depth test off + BackToFront == depth-buffered image for scenes with disjoint depth ranges; scenes of <= 3 triangles are explored a second time with a checkerboard-discarding fragment shader. Scenes: all 2-, 3- and 4-subsets (thorough: also all 5-subsets and two 6-subsets) of a 21-triangle pool with overlapping, identically coloured, interpenetrating, partially clipped, culled-away, clipped-away (past a frustum corner), behind-the-viewer, coincident-footprint and two-ulp-apart members; depth ranges for the painter clause are those of the exact visible parts.",
         &["per-triangle coverage/depth taken from solo renders (validated separately by C01/C04/C05)", "depth test Less, depth writes on"]);
 }
 
@@ -573,7 +592,7 @@ fn check_config(scene: &Scene, flags: u32, discard: Discard, kind: TargetKind, r
     let tag = format!("flags{flags}|{discard:?}|{kind:?}|{}", short(scene));
     let out = match render_scene(scene, None, Door::Render, kind, &ctx, discard, None) { Ok(o) => o, Err(p) => { r.violation(format!("render-panic|{tag}"), p, case()); return; } };
     let px = (scene.bw * scene.bh) as usize;
-    let has_depth = kind != TargetKind::ColorOnly;
+    let has_depth = kind != TargetKind::ColorOnly && kind != TargetKind::ColorOnlySub;
     // independent expectations -------------------------------------------------
     // which triangles survive culling: harness-side on-screen winding of unclipped triangles
     // reference run: no culling, no test, everything written -> per-pixel fragment counts via twin runs
@@ -596,6 +615,13 @@ fn check_config(scene: &Scene, flags: u32, discard: Discard, kind: TargetKind, r
         let (bd, od) = (base.depth.as_ref().unwrap(), out.depth.as_ref().unwrap());
         if let Some(p) = (0..px).find(|&p| (base.color[p] != color_sentinel(p)) != (bd[p].to_bits() != depth_sentinel(p).to_bits())) { r.violation(format!("test-off-depth-not-updated|{tag}"), format!("depth test disabled, both writes on: pixel {p} has its colour {} but its depth {}", if base.color[p] != color_sentinel(p) { "written" } else { "untouched" }, if bd[p].to_bits() != depth_sentinel(p).to_bits() { "written" } else { "untouched" }), case()); return; }
         if ctx.depth_test.is_none() && ctx.depth_write && discard == Discard::Never && od != bd { r.violation(format!("test-off-depth-differs|{tag}"), "depth test disabled and depth writes on, yet the depth buffer differs from the one obtained with colour writes on".into(), case()); return; }
+    }
+    // ... whatever the depth buffer held before, NaN included (a comparison with NaN is false for every predicate)
+    if has_depth && ctx.depth_test.is_none() && ctx.color_write {
+        let (pc, pd): (Vec<u32>, Vec<f32>) = ((0..px).map(color_sentinel).collect(), (0..px).map(|p| if p % 2 == 0 { f32::NAN } else { depth_sentinel(p) }).collect());
+        if let Ok(t) = render_scene(scene, None, Door::Render, kind, &ctx, discard, Some((&pc, &pd))) {
+            if t.color != out.color || t.invocations != out.invocations { r.violation(format!("test-off-nan-depth-rejects|{tag}"), format!("depth test disabled: with NaN already in the depth buffer {} fragments were shaded instead of {} and the colour buffer differs", t.invocations, out.invocations), case()); return; }
+        }
     }
     // depth test disabled (or colour-only target): every generated fragment reaches the shader
     if ctx.depth_test.is_none() || !has_depth {
@@ -839,7 +865,7 @@ fn main() {
     if cfg.replay.is_some() {
         replay_main(&cfg, |c, r| {
             let door = |c: &J| match c.get("door").and_then(|j| j.as_str()).unwrap_or("") { "Batch" => Door::Batch, "Camera" => Door::Camera, _ => Door::Render };
-            let kind = |c: &J| match c.get("target").and_then(|j| j.as_str()).unwrap_or("") { "SubView" => TargetKind::SubView, "ColorOnly" => TargetKind::ColorOnly, _ => TargetKind::Owned };
+            let kind = |c: &J| match c.get("target").and_then(|j| j.as_str()).unwrap_or("") { "SubView" => TargetKind::SubView, "ColorOnly" => TargetKind::ColorOnly, "ColorOnlySub" => TargetKind::ColorOnlySub, _ => TargetKind::Owned };
             match c.get("kind").and_then(|j| j.as_str()).unwrap_or("") {
                 "image" => check_image_ctx(&scene_from(c.get("scene").unwrap()), door(c), kind(c), c.get("painter").and_then(|j| j.as_u64()).unwrap_or(0) as u8, r),
                 "safety" => {
